@@ -3074,6 +3074,20 @@ SKIP_HSHEADER_PARSE:
      */
     if (c < end)
     {
+#ifdef USE_DTLS
+        if (ACTV_VER(ssl, v_dtls_any) && rc == SSL_PROCESS_DATA)
+        {
+            /* The message just parsed completed the peer's flight and our
+               response is due.  Whatever else was packed behind it in this
+               record (duplicates, future or fragmented messages) must not
+               make us return before that response has been encoded: the
+               flight would otherwise be built for the first time by the
+               retransmission path (ssl->retransmit == 1), which neither
+               saves the previous write cipher state nor caches the
+               messages a real retransmission relies on. */
+            return rc;
+        }
+#endif /* USE_DTLS */
         goto parseHandshake;
     }
 
